@@ -454,6 +454,9 @@ func (c *c16Chain) check() {
 			c.nAnnounced++
 		}
 	}
+	if ann.Index == (types.ChainIndex{}) && (ann.Address != "" || h != (types.Hash256{})) {
+		em.Monitor("announcement-address-or-hash-kept-after-record-cleared", fmt.Sprintf("index empty, address %q hash %v", ann.Address, h))
+	}
 	storeTip, err := c.db.Tip()
 	if err != nil {
 		c.t.Fatal(err)
